@@ -253,4 +253,12 @@ def run(ctx):
     run.rule(R5, "a refresh at an unchanged tip still applies the node's answer (the give-up test is strictly 'node behind wallet')", floor=1)
     from .shared import refresh_not_skipped
     refresh_not_skipped(ctx, R5)
+    R6 = "C18.R6"
+    run.rule(R6, "a reverted output is not reserved either: inputs are chosen when the context is built, the reservation step reads each record again and refuses one that a scan has marked Reverted in the meantime", floor=2)
+    from .shared import reservation_recheck
+    reservation_recheck(ctx, R6)
+    R7 = "C18.R7"
+    run.rule(R7, "a reverted payment stays re-confirmable: the automatic expiry step of a refresh does not cancel a TxReverted entry (which would delete its output)", floor=1)
+    from .shared import expiry_step_scope
+    expiry_step_scope(ctx, R7, ("reverted",))
     run.not_decided += ["fork depths, repeated flip-flops, what a scan reports after a reorganisation (histories over a chain)"]
